@@ -232,10 +232,14 @@ def firstEqv (s : St) (o : ObjId) : List ObjId → Option ObjId
   | [] => none
   | m :: t => if eqv s m o then some m else firstEqv s o t
 
-/-- `NumberedObjectCollection.remove` (repaired code): the member that `==` finds is popped, and it is
-    that member — not the argument — whose cache entries are dropped. -/
+/-- the member that *is* the object (repaired code, C16 e2abfcd: `remove` and `in` go by identity, an equal
+    copy of a member is not a member) -/
+def firstIs (o : ObjId) (l : List ObjId) : Option ObjId := if l.contains o then some o else none
+
+/-- `NumberedObjectCollection.remove` (repaired code): the member that is the object is popped and its
+    cache entries are dropped; `ValueError` when the object is not a member. -/
 def remove (s : St) (o : ObjId) : St × Out :=
-  match firstEqv s o s.objs with
+  match firstIs o s.objs with
   | some m => ({ s with cache := evict s.cache m, objs := s.objs.erase m }, .ok)
   | none => (s, .err .valueError)
 
@@ -294,7 +298,7 @@ def step (s : St) : Op → St × Out
   | .setNumber o n => setNumber s o n
   | .get n => let r := get s n; (r.1, .obj r.2)
   | .getitem n => getitem s n
-  | .contains o => (s, .bool ((firstEqv s o s.objs).isSome))
+  | .contains o => (s, .bool ((firstIs o s.objs).isSome))
   | .numbers => ({ s with cache := refresh s.num s.objs s.cache }, .ints (s.objs.map s.num))
   | .keys => (s, .ints (s.objs.map s.num))
   | .items => (s, .objsOut s.objs)
